@@ -7,6 +7,7 @@ class C10(SCheck):
     prop = "C10"
     level = "exploration"
     default_seed = 10010
+    ustep_rate = 0.35
     N = {"quick": 300, "thorough": 8000}
     K = {"quick": 2, "thorough": 4}
     technique = "deterministic simulation: seeded schedules (finalisation may run on any worker), snapshot oracle on lstat + xattrs"
